@@ -263,8 +263,8 @@ BufTick(S) ==
     LET pid == Actor("Buf")
         S0 == [S EXCEPT !.procs[pid].started = TRUE]
         over == OverThreshold(S)
-        skip == over /\ S.now \in S.buf.storedTimes      \* `continue`
-        crash == over /\ ~skip /\ S.buf.hotStored = <<>>  \* stored[-1] on an empty list
+        skip == over /\ (S.now \in S.buf.storedTimes \/ S.buf.hotStored = <<>>)   \* `continue`
+        crash == FALSE
         h2c == over /\ ~skip /\ ~crash
                /\ ColdHasCapacity(S, S.obs[SeqLast(S.buf.hotStored)].data)
         S1 == IF h2c THEN Spawn([S0 EXCEPT !.nmove = @ + 1], H2cPid(S0.nmove + 1), Loc0) ELSE S0
